@@ -318,13 +318,25 @@ func partial(env Env, n ast.IsNode) (ast.IsNode, error) {
 			},
 		)
 	case ast.NodeTypeIsIn:
-		// `e is T in x` does not evaluate x when e is a known entity of another type
-		if left, err := partial(env, v.Left); err == nil {
-			if lv, ok := left.(ast.NodeValue); ok {
-				if e, ok := lv.Value.(types.EntityUID); ok && !containsMarker(e) && e.Type != v.EntityType {
-					return ast.NodeValue{Value: types.False}, nil
-				}
+		// `e is T in x` evaluates x only when e is an entity of type T
+		left, leftErr := partial(env, v.Left)
+		if lv, ok := left.(ast.NodeValue); leftErr == nil && ok {
+			if e, ok := lv.Value.(types.EntityUID); ok && !containsMarker(e) && e.Type != v.EntityType {
+				return ast.NodeValue{Value: types.False}, nil
 			}
+		} else if leftErr == nil || errors.Is(leftErr, errVariable) {
+			// e is not known yet, so an error in x must not surface now: keep it in the residual
+			right, rightErr := partial(env, v.Entity)
+			if errors.Is(rightErr, errIgnore) {
+				return nil, rightErr
+			} else if errors.Is(rightErr, errVariable) {
+				right = v.Entity
+			} else if rightErr != nil {
+				right = extError(rightErr)
+			} else if rv, ok := right.(ast.NodeValue); ok && containsMarker(rv.Value) {
+				right = v.Entity
+			}
+			return ast.NodeTypeIsIn{NodeTypeIs: ast.NodeTypeIs{Left: left, EntityType: v.EntityType}, Entity: right}, nil
 		}
 		return tryPartial(env,
 			[]ast.IsNode{v.Left, v.Entity},
